@@ -13,7 +13,7 @@ from engines import sinterp, flatten_switch, peval, threading, call_args, known_
 from ir import walk, strip, expr_str, access_path
 
 PID = "C15"
-UNITS = dict(components={"clstepcore", "cldai", "cleditor", "clutils", "cllazyfile", "p21read"})
+UNITS = dict(components={"clstepcore", "cldai", "cleditor", "clutils", "cllazyfile", "p21read", "exp2cxx"})
 EXPLANATION = (
     "(R1) The `case '$': case ',': case ')':` region of STEPattribute::STEPread is executed by a structured "
     "interpreter for every combination of Nullable() x strict x PrimitiveType (all enumerators) x {'$', ','}; the "
@@ -25,7 +25,8 @@ EXPLANATION = (
     "expansion of virtual calls) from the file entry points. (R3) constant/plumbing facts. (R4) every threshold test under which a reader merges the severity of a part into the enclosing descriptor holds for SEVERITY_USERMSG, the severity of a lenient substitution. Not decided: the value "
     "actually written back beyond 'target assigned a constant'."
     " (R5) where a reader classifies an instance by a switch over its severity and sets the node state in the arms (STEPfile::ReadInstance), SEVERITY_USERMSG reaches the same ChangeState calls as SEVERITY_NULL: the instance that received the lenient filler is a complete instance."
-    " (R5p, shared with C03) the Severity returned by a part reader called on another object, or that object's Error(), is used: what strict mode reports for an unset required attribute inside a complex part has to reach the instance.")
+    " (R5p, shared with C03) the Severity returned by a part reader called on another object, or that object's Error(), is used: what strict mode reports for an unset required attribute inside a complex part has to reach the instance."
+    " (R1g, rule of C02 R1) the attribute descriptors exp2cxx emits pass LTrue for the constructor parameter named `optional` exactly when the attribute is declared OPTIONAL, for each of the emission blocks: the optionality the reader consults is the schema's.")
 
 ENTRY = ["STEPfile::ReadExchangeFile", "STEPfile::AppendExchangeFile", "STEPfile::ReadWorkingFile",
          "STEPfile::AppendWorkingFile", "lazyInstMgr::loadInstance"]
@@ -439,6 +440,10 @@ def r3(prog, res):
 def run(prog, res, tier):
     r4_usermsg_merged(prog, res)
     r5_usermsg_classified_like_clean(prog, res)
+    # what `optional` means at run time (STEPattribute::Nullable) is what exp2cxx wrote into the attribute descriptor: the emitted
+    # constructor passes LTrue for the parameter named `optional` exactly when VARget_optional (rule and engine of C02 R1)
+    from rules import c02
+    c02.r1_slots(prog, res)
     # strictness only matters if what a part reader reports reaches the instance at all (rule shared with C03 R5)
     from rules import c03, c03_more
     sv = c03.sev_enum(prog)
